@@ -67,7 +67,7 @@ class MeshLine1(MeshSimplex, Mesh):
         p, t = self.doflocs, self.t
         marked = np.unique(marked)
 
-        mid = range(len(marked)) + np.max(t) + 1
+        mid = np.arange(len(marked)) + p.shape[1]
         nonmarked = np.setdiff1d(np.arange(t.shape[1]), marked)
         newp = np.hstack((p, p[:, t[:, marked]].mean(1)))
         newt = np.vstack((t[0, marked], mid))
